@@ -163,9 +163,14 @@ class Cadence(collections.abc.MutableSequence):
         to :func:`~setigen.frame.Frame.add_signal`.
         """
         for frame in self.frames:
-            frame.ts += frame.t_start - self.t_start
-            frame.add_signal(*args, **kwargs)
-            frame.ts -= frame.t_start - self.t_start
+            # Shift the times seen by the signal functions, and put the frame's 
+            # own time array back afterwards, also if the injection raises
+            ts = frame.ts
+            frame.ts = ts + (frame.t_start - self.t_start)
+            try:
+                frame.add_signal(*args, **kwargs)
+            finally:
+                frame.ts = ts
         
     def apply(self, func):
         """
